@@ -43,6 +43,11 @@ impl Trace {
         serde_json::to_writer(&mut self.w, v).expect("write trace");
         self.w.write_all(b"\n").expect("write trace");
         self.events += 1;
+        // a run boundary is always on disk before the run executes: if the code under test aborts
+        // the process, the orchestrator knows which run did it
+        if v["ev"] == "reset" {
+            self.w.flush().expect("flush trace");
+        }
     }
     pub fn finish(mut self) {
         self.w.flush().expect("flush trace");
@@ -75,7 +80,11 @@ pub fn guarded<T>(f: impl FnOnce() -> T) -> Result<T, String> {
 }
 
 pub fn silence_panics() {
-    std::panic::set_hook(Box::new(|_| {}));
+    // one short line per panic on stderr: only looked at when the process dies
+    std::panic::set_hook(Box::new(|info| {
+        let msg: String = format!("{info}").chars().filter(|c| *c != '\n').take(300).collect();
+        eprintln!("PANIC: {msg}");
+    }));
 }
 
 pub fn geti(v: &Value, k: &str) -> i64 {
